@@ -59,28 +59,35 @@ def is_array_kind(kind):
     return kind.endswith("-array") or (kind.startswith("extporous") and kind != "extporous-ff")
 
 
-def run_history(darsia, rng, tid, kind, dim, hist, h, payload, as_image, use_voxel_size):
+def run_history(darsia, rng, tid, kind, dim, hist, h, payload, as_image, use_voxel_size, mixed=None):
     n = NATIVE[dim]
+    res = dict(RES)
+    base = tuple(x // 4 for x in n)
+    if dim == 2 and (rng.random() < 0.35 if mixed is None else bool(mixed)):
+        # native extents with several prime factors: the coarser resolutions (1/2 and 1/3) are not refinements of one another,
+        # so that a history can walk through partitions that are not nested
+        n, res, base = (6, 12), dict(RES, other=1.0 / 3), (1, 2)
     geom, w = build_geometry(darsia, rng, kind, dim, n, h, use_voxel_size)
     D = 2 ** dim
     unit = float(np.prod(h)) / D
-    base = tuple(x // 4 for x in n)
     nsl = {"scalar": (), "vector": (2,), "series": (3,), "vseries": (2, 2)}[payload]
     ev = []
     # per history every resolution name stands for one resolution; besides the isotropic factor it may be refined along
     # some axes and kept / coarsened along others (factors per axis in {1/2, 1, 2}, not all 1; 2-D and 3-D)
     factors = {}
     for rname in set(hist):
-        f = tuple(RES[rname] for _ in n)
-        if rname != "native" and dim >= 2 and rng.random() < 0.4:
+        f = tuple(res[rname] for _ in n)
+        if rname != "native" and dim >= 2 and (rng.random() < 0.4 if mixed is None else mixed == "axes"):
             while True:
-                f = tuple(rng.choice([0.5, 1, 2]) for _ in n)
+                f = tuple(rng.choice([0.5, 1, 2] + ([1.0 / 3] if n == (6, 12) else [])) for _ in n)
                 if any(x != 1 for x in f) and f not in factors.values():
                     break
+        if mixed == "axes" and rname == "other":
+            f = rng.choice([(1.0 / 3, 2), (2, 1.0 / 3)])
         factors[rname] = f
     payload0, as_image0 = payload, as_image
     for i, rname in enumerate(hist):
-        r = tuple(int(x * fx) for x, fx in zip(n, factors[rname]))
+        r = tuple(int(round(x * fx)) for x, fx in zip(n, factors[rname]))
         # payload layout and input form vary from call to call on the same geometry object
         if i > 0 and rng.random() < 0.5:
             payload, as_image = rng.choice(["scalar", "vector", "series", "vseries"]), rng.random() < 0.5
@@ -89,12 +96,15 @@ def run_history(darsia, rng, tid, kind, dim, hist, h, payload, as_image, use_vox
         nsl = {"scalar": (), "vector": (2,), "series": (3,), "vseries": (2, 2)}[payload]
         # field: constant on the coarsest partition, per slice
         nslices = int(np.prod(nsl)) if nsl else 1
-        fields = [np.array([rng.randint(0, 5) for _ in range(int(np.prod(base)))], dtype=float).reshape(base) for _ in range(nslices)]
+        # ... or, every other call, an arbitrary field at the resolution of the call (the sum of data times effective volume
+        # does not need the field to be the refinement of a coarser one)
+        fbase = base if rng.random() < 0.5 else r
+        fields = [np.array([rng.randint(0, 5) for _ in range(int(np.prod(fbase)))], dtype=float).reshape(fbase) for _ in range(nslices)]
         slices = []
         for f in fields:
             d = f
             for a in range(dim):
-                d = np.repeat(d, r[a] // base[a], axis=a)
+                d = np.repeat(d, r[a] // fbase[a], axis=a)
             slices.append(d)
         data = np.stack(slices, axis=-1).reshape(r + nsl) if nsl else slices[0]
         arg = data
@@ -209,7 +219,7 @@ def run(ck, replay=None):
     quick = ck.tier == "quick"
     if replay:
         cases = [tuple(c["case"]) for c in json.load(open(replay))["cases"]]
-        cases = [(k, d, tuple(hh), hv, p, bool(ai), bool(uv)) for (k, d, hh, hv, p, ai, uv) in cases]
+        cases = [(c[0], c[1], tuple(c[2]), c[3], c[4], bool(c[5]), bool(c[6])) + tuple(c[7:]) for c in cases]
     else:
         short = [hh for hh in hists if len(hh) <= (2 if quick else 3)]
         longer = [hh for hh in hists if len(hh) > (2 if quick else 3)]
@@ -226,11 +236,17 @@ def run(ck, replay=None):
         for kind in KINDS:
             for hh in [("coarser", "native"), ("finer", "native", "other", "native")]:
                 cases.append((kind, 2, hh, [0.5, 0.25], rng.choice(["scalar", "vector", "series"]), rng.random() < 0.5, False))
+            # partitions that are not nested (native 6 x 12: halves, then thirds), isotropic and per axis
+            for hh in [("coarser", "other"), ("coarser", "other", "native", "other", "coarser")]:
+                cases.append((kind, 2, hh, [0.5, 0.25], rng.choice(["scalar", "vector", "series"]), rng.random() < 0.5, False, True))
+            # ... and resolutions refined along one axis while coarsened (by 2 or 3) along the other
+            for hh in [("coarser", "other"), ("finer", "coarser", "other", "native", "other")]:
+                cases.append((kind, 2, hh, [0.5, 0.25], rng.choice(["scalar", "vector", "series"]), rng.random() < 0.5, False, "axes"))
     events, info = [], {}
     for i, c in enumerate(cases):
         tid = f"h{i}"
         info[tid] = c
-        events += run_history(darsia, rng, tid, c[0], c[1], c[2], c[3], c[4], c[5], c[6])
+        events += run_history(darsia, rng, tid, *c)
     for i in range(12 if quick else 80):
         events.append(normalize_event(darsia, rng, f"norm{i}", rng.choice([1, 2, 3])))
     bad = ck.validate("Trace_Geometry", "Trace.cfg", events, weight=lambda e: 5 + len(e.get("w", [])) * max(1, len(e.get("data", []))), budget=40000)
